@@ -755,6 +755,52 @@ var corpus = []func(w *world){
 		w.get(hb("35111211ff10"))
 		w.root()
 	},
+	// ModeGC: a node deactivated at one Flush and created again later must become active again
+	// (trie.go updateRefCount reads the record mode-aware); everything must be readable after reload
+	func(w *world) {
+		w.setMode(mpt.ModeGC)
+		putAll(w, "1201", "1203", "1224")
+		w.flush()
+		w.del(hb("1224"))
+		w.flush()
+		w.put(hb("1224"), append([]byte{0xaa}, hb("1224")...)) // the same leaf and extension again
+		w.flush()
+		w.collapse(0)
+		w.get(hb("1224"))
+		w.proof(hb("1224"))
+		w.batch([]change{{key: hb("1225"), val: []byte{1}}})
+		w.reopen()
+		w.root()
+		w.get(hb("1224"))
+		w.get(hb("1225"))
+		w.seek(nil, nil, false)
+	},
+	// ModeLatest: one leaf shared by several keys (equal values); holders added by a batch before an
+	// already stored holder, touched again in the next block without Collapse, then removed one by one:
+	// the counter kept across Flushes must stay exact or the shared node is deleted while referenced
+	func(w *world) {
+		w.setMode(mpt.ModeLatest)
+		v := []byte{0x77, 0x77}
+		w.put(hb("50"), v)
+		w.reopen() // the stored holder is now behind a HashNode
+		// new holders 10, 20 are counted first, then the stored leaf is loaded (its counter read)
+		w.batch([]change{{key: hb("10"), val: v}, {key: hb("20"), val: v}, {key: hb("50"), val: v}})
+		w.flush()
+		w.put(hb("60"), v) // next block, no Collapse in between
+		w.flush()
+		for _, k := range []string{"10", "20"} {
+			w.del(hb(k))
+			w.flush()
+		}
+		w.reopen()
+		w.root()
+		w.get(hb("50"))
+		w.proof(hb("50"))
+		w.seek(nil, nil, true)
+		w.del(hb("50"))
+		w.reopen()
+		w.root()
+	},
 	// maximum-length keys differing in the last nibble, and their common prefix as a key
 	func(w *world) {
 		k := bytes.Repeat([]byte{0xab}, mpt.MaxKeyLength)
